@@ -1,4 +1,5 @@
 """Cases for the matrix translator py2lean_matrix.py + normalize.py (module typhon.retrieval.oem.common)."""
+import run
 from run import case, msame, mcontains, mrefused, trm, check
 
 S = '''
@@ -207,3 +208,34 @@ from typhon.retrieval.oem.other import _measurement_information
 def f(K, S_a, S_y):
     return inv(_measurement_information(K, S_y) + inv(S_a))
 ''', "not in the translated subset")
+
+
+@case
+def matrix_helper_from_another_module():
+    run.MODULES["typhon.retrieval.oem.util"] = '''
+import scipy.linalg as sla
+
+
+def information(K, S_y):
+    return K.T @ sla.inv(S_y) @ K
+'''
+    try:
+        msame("helper imported from a sibling module", S, '''
+from scipy.linalg import inv
+from typhon.retrieval.oem import util
+
+
+def f(K, S_a, S_y):
+    return inv(util.information(K, S_y) + inv(S_a))
+''')
+        run.MODULES["typhon.retrieval.oem.util"] = run.MODULES["typhon.retrieval.oem.util"].replace("sla.inv(S_y)", "S_y")
+        mcontains("the sibling module's helper changed (mutant)", '''
+from scipy.linalg import inv
+from typhon.retrieval.oem import util
+
+
+def f(K, S_a, S_y):
+    return inv(util.information(K, S_y) + inv(S_a))
+''', yes=["(((Matrix.transpose K) * S_y) * K)"])
+    finally:
+        run.MODULES.clear()
